@@ -1077,13 +1077,21 @@ func areEqualConvertType(query, pattern *sqlparser.ConvertType) bool {
 	if !strings.EqualFold(query.Operator, pattern.Operator) {
 		return false
 	}
-	if areEqualSQLVal(query.Length, pattern.Length) {
+	if !areEqualOptionalSQLVal(query.Length, pattern.Length) {
 		return false
 	}
-	if areEqualSQLVal(query.Scale, pattern.Scale) {
+	if !areEqualOptionalSQLVal(query.Scale, pattern.Scale) {
 		return false
 	}
 	return true
+}
+
+// areEqualOptionalSQLVal compares values that may be absent (length and scale of a convert type)
+func areEqualOptionalSQLVal(query, pattern *sqlparser.SQLVal) bool {
+	if query == nil || pattern == nil {
+		return query == nil && pattern == nil
+	}
+	return areEqualSQLVal(query, pattern)
 }
 func areEqualValuesFuncExpr(query, pattern *sqlparser.ValuesFuncExpr) bool {
 	return areEqualColName(query.Name, pattern.Name)
@@ -1092,7 +1100,7 @@ func areEqualCaseExpr(query, pattern *sqlparser.CaseExpr) bool {
 	if !areEqualExpr(query.Expr, pattern.Expr) {
 		return false
 	}
-	if !areEqualExpr(query.Else, pattern.Expr) {
+	if !areEqualExpr(query.Else, pattern.Else) {
 		return false
 	}
 
@@ -1144,7 +1152,7 @@ func areEqualIntervalExpr(query, pattern *sqlparser.IntervalExpr) bool {
 	if !strings.EqualFold(query.Unit, pattern.Unit) {
 		return false
 	}
-	if areEqualExpr(query.Expr, pattern.Expr) {
+	if !areEqualExpr(query.Expr, pattern.Expr) {
 		return false
 	}
 	return true
